@@ -271,9 +271,10 @@ class H5Group:
             if name in self.group.attrs:
                 del self.group.attrs[name]
         else:
-            if isinstance(value, np.str_):
-                value = str(value)
             if isinstance(value, str):
+                # plain text, whatever subclass of str it arrives in (h5py
+                # has no conversion for numpy.str_ and other subclasses)
+                value = str(value)
                 # h5py removes the previous value before it finds out that
                 # the new text cannot be stored
                 util.check_text_storable(value)
@@ -305,6 +306,10 @@ class H5Group:
     def copy(self, source, dest, name=None, cls=None, shallow=False,
              keep_id=True):
         grp = self.group
+        if isinstance(name, str):
+            # the name attribute of the copy is written after the copy was
+            # made: plain text, whatever subclass of str was given
+            name = str(name)
         dest.open_group(cls, create=True)
         dest_grp = dest.group[cls]
         grp.copy(source=source, dest=dest_grp, name=name, shallow=shallow)
